@@ -9,7 +9,9 @@ PROP = 'C11'
 LEAN_TARGETS = ['Props.C11']
 REQUIRED_THEOREMS = ['Props.C11.apply_preserves', "Props.C11.apply_repeatable'", 'Props.C11.backward_preserves_data',
                      'Props.C11.root_gradient_is_copied', 'Props.C11.zeroGrad_preserves_data',
-                     'Props.C11.kernels_never_write_operands', 'Props.C11.kernel_operands_unchanged']
+                     'Props.C11.kernels_never_write_operands', 'Props.C11.kernel_operands_unchanged',
+                     'Props.C11.wrappers_never_write_data_or_upstream', 'Props.C11.tensor_operands_unchanged',
+                     'Props.C11.clone_detach_return_fresh', 'Props.C11.clone_detach_storage_independent']
 RULE = ('(a) every op / nn op / loss once or more with operands that are NumPy views of one another (aliased leaves) and operands '
         'reused by several ops; (b) DAG programs with two backward calls through the same root and a later graph re-using it; '
         'after every forward and every backward the bytes (`tobytes()` of the arrays and of their bases) of every operand, target, '
@@ -19,7 +21,8 @@ RULE = ('(a) every op / nn op / loss once or more with operands that are NumPy v
 EXHAUSTIVE = {'quick': False, 'thorough': False}
 ASSUMPTIONS = ['the documented in-place writers (optimizer step, initialisers, batch-norm running statistics, zeroing) are exercised by C08 / C15 / C13 / C04']
 TRUSTED_BASE = ['harness/tprog.py',
-                'harness/effects.py (effect extractor: the translation of cpu_ops.py / conv_tools.py into effect programs, its tables of '
+                'harness/effects.py (effect extractor: the translation of cpu_ops.py / conv_tools.py / functional.py / nn/functional.py / tensor.py into '
+                'effect programs, the Tensor model (constructor, grad property; compared with tensor.py on every run), the documented allowed-writes list, its tables of '
                 'allocating / view-returning / writing NumPy functions (probed on the installed NumPy on every run), the assumption that '
                 'array parameters are plain ndarrays of non-object dtype)']
 
